@@ -159,6 +159,17 @@ def drv_majority(tier, rng):
             mp['randomAlternativesOrdering'] = True
         req['methodParameters'] = mp
         groups.append([base_case(req, exactprop='C11', refmax=5, unit=unit)])
+    # current choice first, also under a seeded order: identical alternatives draw every comparison, so with `current` the
+    # first of the search order wins and with `newer` the last one - the ranking shows the search order itself
+    for t in range(60 if tier == 'quick' else 1200):
+        n = rng.randint(2, 4)
+        extra = rng.choice([0, 1])
+        req = heur_req(rng, 'majorityHeuristic', n, 2, [1], extra)
+        mp = {'weights': {'c1': UNIT, 'c2': UNIT}, 'randomSeed': rng.randint(0, 10 ** 6), 'drawResolution': rng.choice(['current', 'newer', 'allow']),
+              'randomAlternativesOrdering': rng.random() < 0.8}
+        mp['currentChoice'] = req['knownAlternatives'][n]['id'] if extra and rng.random() < 0.5 else rng.choice(req['choseToMake'])
+        req['methodParameters'] = mp
+        groups.append([base_case(req, exactprop='C11', refmax=5)])
     # targeted: scores that are equal as numbers but differ in the last float bit (0.1 + 0.2 vs 0.3, 0.1 + 0.2 + 0.4 vs 0.7),
     # on either side, under every draw policy
     for ws in ([1, 2, 3], [3, 1, 2], [1, 2, 4, 7], [7, 4, 2, 1], [2, 4, 6], [1, 6, 7]):
@@ -259,6 +270,17 @@ def drv_satisfaction(tier, rng):
             mp['currentChoice'] = req['knownAlternatives'][n]['id']
         if rng.random() < 0.25:
             mp['randomAlternativesOrdering'] = True
+        req['methodParameters'] = mp
+        groups.append([base_case(req, refmax=5)])
+    # current choice first, also under a seeded order: alternatives that all meet the first level are accepted in search
+    # order, so the ranking shows the order itself (current choice considered, or known but not considered)
+    for t in range(60 if tier == 'quick' else 1200):
+        n = rng.randint(2, 4)
+        extra = rng.choice([0, 1])
+        req = heur_req(rng, 'satisfactionHeuristic', n, 1, [2, 3], extra, types=['gain'])
+        mp = {'function': 'thresholds', 'params': {'thresholds': [{'c1': UNIT * rng.choice([1, 2])}, {'c1': 0}]}, 'randomSeed': rng.randint(0, 10 ** 6),
+              'randomAlternativesOrdering': rng.random() < 0.8}
+        mp['currentChoice'] = req['knownAlternatives'][n]['id'] if extra and rng.random() < 0.5 else rng.choice(req['choseToMake'])
         req['methodParameters'] = mp
         groups.append([base_case(req, refmax=5)])
     return groups
@@ -970,7 +992,7 @@ FAMILIES = {
         'mode': 'conc', 'trace': 'Trace_Conc', 'drivers': [],
     },
     'conc_free': {
-        'mode': 'conc', 'race': True, 'ok_rcs': (0, 66), 'crash_obs': True, 'post': post_races, 'trace': 'Trace_Conc', 'drivers': [drv_conc_free],
+        'mode': 'conc', 'race': True, 'ok_rcs': (0, 66), 'crash_obs': True, 'procs': {'quick': 6, 'thorough': 24}, 'post': post_races, 'trace': 'Trace_Conc', 'drivers': [drv_conc_free],
     },
     'conc_model': {
         'mc': 'MC_Service', 'mc_cfg': {'quick': 'MC_Service_quick.cfg', 'thorough': 'MC_Service_thorough.cfg'},
